@@ -73,7 +73,7 @@ CLAIMED = {
   "DESIGN.md §3 C10-C12"),
  "C11": ("exploration",
   "TLA+ spec DataCodec.tla enumerated by TLC; every state instantiated from adversarial pools (YAML 1.1/1.2 implicit types, indicators in first/inner/last position, control/non-BMP characters, newline-only strings) and replayed on the YAML encoder/decoder with yaml.v3 as independent decoder",
-  "Model-driven exploration as for C10 with the YAML behaviours (Encode -> Extract, twice; MarshalJSON -> YAML Extract of the JSON text). The encoder output is read back with yaml.v3 (node tags decide string vs number vs bool vs null) and with CUE's decoder and must equal the ground truth, keys included.",
+  "Model-driven exploration as for C10 with the YAML behaviours (Encode -> Extract, twice; MarshalJSON -> YAML Extract of the JSON text). The encoder output is read back with yaml.v3 (node tags decide string vs number vs bool vs null) and with CUE's decoder and must equal the ground truth, keys included. Every text of the JSON scalar grammar JsonText.tla (strings with all escapes and surrogate pairs, numbers) is also fed to the YAML decoder as a value, list element, member and key and must denote what the grammar says.",
   "trusted: TLC, the independent decoders (Go encoding/json with UseNumber and ordered tokens; yaml.v3 node tags), the category pools; canary: the data comparison must notice a changed scalar kind, number kind and key order. Byte-level content outside the pools is not covered (DESIGN.md §7).",
   "DESIGN.md §3 C10-C12"),
  "C12": ("exploration",
